@@ -7,6 +7,7 @@ import (
 	"github.com/plgd-dev/go-coap/v3/message"
 	"github.com/plgd-dev/go-coap/v3/message/codes"
 	"github.com/plgd-dev/go-coap/v3/message/pool"
+	"github.com/plgd-dev/go-coap/v3/udp/coder"
 )
 
 // C13 — after a decided history of exchanges, each ending in a decided outcome, followed by a housekeeping tick
@@ -87,6 +88,55 @@ func zzExchange(cc *Conn, s *zzSession, kind int, tok byte, now *int64) {
 		}
 		cancelPing()
 		symCover("ping")
+	case 7: // observe registration, rejected by the peer (4.04) or accepted and then cancelled
+		tokO := message.Token{tok, 7}
+		accept := symChoose("observe-accepted", 2) == 1
+		var obs interface {
+			Cancel(ctx context.Context, opts ...message.Option) error
+		}
+		var oerr error
+		odone := false
+		go func() {
+			req := pool.NewMessage(context.Background())
+			req.SetCode(codes.GET)
+			req.SetToken(tokO)
+			_ = req.SetPath("/obs")
+			req.SetObserve(0)
+			o, err := cc.DoObserve(req, func(n *pool.Message) {})
+			if err == nil {
+				obs = o
+			}
+			oerr = err
+			odone = true
+		}()
+		zzWaitWritten(s, base+1)
+		code := codes.NotFound
+		if accept {
+			code = codes.Content
+		}
+		resp := zzRequest(message.Acknowledgement, s.written[base].mid, code, tokO, []byte{1})
+		if accept {
+			resp.SetObserve(5)
+		}
+		b, _ := resp.MarshalWithEncoder(coder.DefaultCoder)
+		_ = cc.Process(nil, append([]byte(nil), b...))
+		symWaitUntil(func() bool { return odone })
+		if accept {
+			symAssert(oerr == nil && obs != nil, "accepted registration succeeds")
+			if obs != nil {
+				cdone := false
+				go func() { _ = obs.Cancel(context.Background()); cdone = true }()
+				zzWaitWritten(s, base+2)
+				zzAnswer(cc, s.written[base+1], 1, 0, 1)
+				symWaitUntil(func() bool { return cdone })
+			}
+			symCover("observe-cancelled")
+		} else {
+			symAssert(oerr != nil, "rejected registration fails")
+			symCover("observe-rejected")
+		}
+		_, still := cc.observationHandler.GetObservation(tokO.Hash())
+		symAssert(!still, "no observation entry is retained after a rejected registration or a completed cancellation")
 	case 6: // peer silent: the request is retransmitted until the attempts are exhausted, then the caller gives up
 		ctx, cancel := context.WithCancel(context.Background())
 		c := &zzCall{token: message.Token{tok, 6}}
@@ -118,7 +168,7 @@ func zzC13_history() {
 	symSetNow(time.Unix(0, now))
 	n := symParam("exchanges", 2)
 	for i := 0; i < n; i++ {
-		zzExchange(cc, s, symChoose("kind", 7), byte(0xA0+i), &now)
+		zzExchange(cc, s, symChoose("kind", 8), byte(0xA0+i), &now)
 	}
 	// an incoming request is handled too (reply cache, per-ID lock)
 	cc.ProcessReceivedMessage(zzRequest(message.Confirmable, 77, codes.GET, message.Token{0x77}, nil))
